@@ -39,7 +39,7 @@ COMPONENTS = {
     "real": ["dali.driver.hid.hid/tridonic/hasseb (connect, _reconnect, disconnect, _reader, send, _send_raw)",
              "dali.driver.serial.DriverLubaRs232/DriverSCIRS232 (send, send_dali_command, timeouts)",
              "asyncio (CPython)"],
-    "stub": ["VirtualLoop selector/clock", "os/glob/random (hid)", "serial_asyncio", "gateway firmware, hidraw node presence, bus"],
+    "stub": ["asyncio.wait_for of CPython 3.8-3.11 (transcribed, sim/legacy_asyncio.py) on ~25 % of the asyncio-driver runs", "VirtualLoop selector/clock", "os/glob/random (hid)", "serial_asyncio", "gateway firmware, hidraw node presence, bus"],
 }
 PROBES = ["two-faults-in-one-run", "loss-with-send-in-flight", "loss-with-send-queued", "loss-during-handshake", "loss-during-reconnect-wait",
           "reconnect-limit-exhausted", "open-failed-after-return", "cancel-while-awaiting-report",
@@ -69,12 +69,22 @@ def gen_base(seed, tier="quick"):
             "deadline_s": 400, "connect_wait_s": 300}
     pool = list(range(1, 255))
     r.shuffle(pool)
+    ends = [v for v in (0, 255) if r.random() < 0.6]     # the ends of the value range, drawn first
+    r.shuffle(ends)
+    pool.extend(ends)
     for c in plan["callers"]:
         for op in c["ops"]:
             for o in op.get("outs", {}).values():
                 if len(o) > 1:
                     o[1] = pool.pop()
     plan["post_values"] = [pool.pop() for _ in range(4)]
+    if hid:
+        # the per-call keyword overrides the driver attribute - in both directions
+        x = plans.rng_for(seed, PROP + "-kw")
+        for c in plan["callers"]:
+            for op in c["ops"]:
+                if op["kind"] == "send" and x.random() < 0.35:
+                    op["exceptions"] = x.random() < 0.5
     return plan
 
 
